@@ -9,7 +9,7 @@ recursion is well defined - arcovar_marple / modcovar_marple.  N up to 128: ObsC
 import numpy as np
 
 from .. import core, material as M, tlc, obs
-from ..kern_util import call_guard, cmp_vec, cmp_scalar, entry_variants
+from ..kern_util import call_guard, cmp_vec, cmp_scalar, entry_variants, live_object_dev
 
 
 def finite(*vals):
@@ -89,6 +89,14 @@ def replay_state(chk, st, cplx, expo):
                                       '%s(x=%s, %d) differs from the least-squares solution: %s' % (fast.__name__, xa.tolist(), p, bad),
                                       dict(case, observed={'a': af[:p], 'p': pf}))
                     chk.count('covar-' + mode, fast.__name__ + '-compared')
+    if N >= 6 and not expo and st['sol'][0]['cov'].get('ok') and st['sol'][1]['cov'].get('ok') and st['sol'][0]['mod'].get('ok') and st['sol'][1]['mod'].get('ok'):
+        for cls in (pcovar, pmodcovar):
+            ok, dev = call_guard(live_object_dev, lambda **kw: cls(xa.copy(), **dict({'order': 2, 'NFFT': 8}, **kw)),
+                                 [('ar_order', 1, 'order'), ('NFFT', 9, 'NFFT'), ('sampling', 2.0, 'sampling'), ('ar_order', 2, 'order')],
+                                 outputs=('psd', 'ar', 'rho'))
+            if ok and dev is not None and dev > 1e-6 and np.isfinite(dev):
+                chk.violation('C14:%s:%s:live-object' % (cls.__name__, mode),
+                              '%s after re-assigning ar_order / NFFT / sampling differs from a fresh object (%r)' % (cls.__name__, dev), {'x': xa})
     chk.replayed += 1
     chk.count('covar-' + mode, 'replayed')
     if N == 5:
